@@ -242,6 +242,7 @@ def main(pid, tier="quick", seed=0, jobs=None, only=None, write_baseline=False):
             "canaries_refuted": canary_refuted,
             "covers": covers,
             "bounded_standins": meta.get("bounded_standins", []),
+            "lemmas": meta.get("lemmas", []),
             "engine_errors": [f"{s}: {e[0] if isinstance(e, (list, tuple)) else e}" for s, e in engine_errors][:20],
             "checker_broken": broken,
             "side_conditions": [{"name": sc[0], "holds": bool(sc[1]), "problems": sc[2], "info": sc[3]} for sc in side],
